@@ -118,8 +118,17 @@ EffSize ==
 \* ... and in what kind of wallet state the step was taken: the output statuses (ost) and log entry
 \* types (tty) present in the acting wallet before the step
 ActW(e) == IF "w" \in DOMAIN e /\ e.w \in DOMAIN st.w THEN e.w ELSE ""
-Log(e) == hist' = Append(hist, [f \in (DOMAIN e) \cup {"eff", "ost", "tty"} |->
+\* ... and how many OTHER transactions are pending (live sent / received entries of other slates) there
+PendOthers(e) ==
+  IF ActW(e) = "" THEN 0
+  ELSE LET me == IF "sl" \in DOMAIN e THEN e.sl ELSE IF "by" \in DOMAIN e THEN e.by ELSE ""
+           \* (cancel_tx refreshes first: what is pending is judged after that refresh)
+           T == (IF e.ev = "cancel" THEN RefreshLite(st, ActW(e)) ELSE st).w[ActW(e)].txs
+           n == Cardinality({t \in DOMAIN T : ~T[t].conf /\ T[t].ty \in {"TxSent", "TxReceived"} /\ T[t].slate # me})
+       IN IF n > 2 THEN 2 ELSE n
+Log(e) == hist' = Append(hist, [f \in (DOMAIN e) \cup {"eff", "ost", "tty", "pend"} |->
                                   IF f = "eff" THEN EffSize
+                                  ELSE IF f = "pend" THEN PendOthers(e)
                                   ELSE IF f = "ost" THEN (IF ActW(e) = "" THEN {} ELSE {st.w[ActW(e)].outs[k].st : k \in DOMAIN st.w[ActW(e)].outs})
                                   ELSE IF f = "tty" THEN (IF ActW(e) = "" THEN {} ELSE {st.w[ActW(e)].txs[t].ty : t \in DOMAIN st.w[ActW(e)].txs})
                                   ELSE e[f]])
@@ -158,7 +167,7 @@ LockAct(sl, m) ==
   /\ LET r == Lock(st, "w1", [sl |-> sl, stage |-> m.stage, ttl |-> m.ttl, hasproof |-> FALSE])
          s2 == LastOr(r.steps, st) IN
      UpdS(r.steps, IF r.res = "ok" THEN HvAfterLock(st, s2, hv, "w1", sl) ELSE hv, net,
-          [ev |-> "lock", w |-> "w1", sl |-> sl, stage |-> m.stage, rep |-> m.rep])
+          [ev |-> "lock", w |-> "w1", sl |-> sl, stage |-> m.stage, rep |-> m.rep, mok |-> (r.res = "ok")])
 
 \* deliver the S1 message of slate sl to wallet w (w2 normally; w1 = self-send), into the
 \* account labelled dest ("" = the active one)
@@ -166,7 +175,7 @@ ReceiveActD(w, sl, dest) ==
   /\ \E m \in net : m.sl = sl /\ m.stage = "S1"
   /\ LET m == CHOOSE m \in net : m.sl = sl /\ m.stage = "S1"
          r == Receive(st, w, [sl |-> sl, dest |-> dest, amt |-> m.amt, ttl |-> m.ttl, hasproof |-> FALSE, kernin |-> "part"])
-         e == [ev |-> "receive", w |-> w, sl |-> sl, dest |-> dest] IN
+         e == [ev |-> "receive", w |-> w, sl |-> sl, dest |-> dest, mok |-> (r.res = "ok")] IN
      IF r.res = "ok"
      THEN UpdS(r.steps, HvAfterReceive(st, LastOf(r.steps), hv, w, sl),
                net \cup {Msg(sl, "S2", m.amt, m.ttl, OID(st, w, r.key), r.rep)}, e)
@@ -188,7 +197,7 @@ FinalizeAct(sl, m) ==
          s2 == LastOr(r.steps, st) IN
      /\ late => (sel.ok /\ sel.fee = cx.fee)
      /\ UpdS(r.steps, HvAfterFinalize(st, s2, hv, "w1", sl, r.res = "ok"), net,
-             [ev |-> "finalize", w |-> "w1", sl |-> sl, stage |-> "S2", rep |-> m.rep])
+             [ev |-> "finalize", w |-> "w1", sl |-> sl, stage |-> "S2", rep |-> m.rep, mok |-> (r.res = "ok")])
 
 \* -- invoice flow: w2 issues (payee), w1 pays, w1 locks with the I2 slate, w2 finalizes
 IssueInvoiceAct(sl, amt) ==
@@ -225,7 +234,7 @@ FinalizeInvoiceAct(sl, m) ==
                                   rins |-> {OID(st, "w1", k) : k \in cx1.ins}, rfee |-> cx1.fee,
                                   lsel |-> {}, lchg |-> <<>>])
          s2 == LastOr(r.steps, st) IN
-     UpdS(r.steps, hv, net, [ev |-> "finalize", w |-> "w2", sl |-> sl, stage |-> "I2", rep |-> m.rep])
+     UpdS(r.steps, hv, net, [ev |-> "finalize", w |-> "w2", sl |-> sl, stage |-> "I2", rep |-> m.rep, mok |-> (r.res = "ok")])
 
 PostAct(sl) ==
   /\ sl \in DOMAIN st.body /\ sl \notin st.pool /\ sl \notin Mined(st)
@@ -258,7 +267,7 @@ RefreshAct(w) ==
 \* cancel by log id (of the active account) or by slate id; refused cancels included
 CancelAct(w, id, sl) ==
   /\ LET r == Cancel(st, w, [id |-> id, sl |-> sl], TRUE) IN
-     UpdS(r.steps, hv, net, [ev |-> "cancel", w |-> w, id |-> id, by |-> sl])
+     UpdS(r.steps, hv, net, [ev |-> "cancel", w |-> w, id |-> id, by |-> sl, mok |-> (r.res = "ok")])
 
 \* accounts on w1
 CreateAccountAct ==
